@@ -124,8 +124,20 @@ def text_of_case(case):
     return (case.get("src") or "") + "\n" + (case.get("inputs") or "")
 
 
+OPEN_KEYS = None
+
+
 def known_class(ev, case, build):
-    """The decidable exclusions: one per open entry of known/C01.json (key = entry["key"])."""
+    """The decidable exclusions: one clause per entry of known/C01.json (key = entry["key"]); a clause only
+    applies while its entry is OPEN — once the entry is `fixed`, the same crash is a violation again."""
+    global OPEN_KEYS
+    if OPEN_KEYS is None:
+        OPEN_KEYS = {e.get("key") for e in c.open_known(PID)}
+    k = _known_class(ev, case, build)
+    return k if k in OPEN_KEYS else None
+
+
+def _known_class(ev, case, build):
     t = text_of_case(case)
     msg, f, typ = ev["msg"], ev["file"], ev["type"]
     if typ == "PANIC" and f == "blots-core/functions.rs" and "Option::unwrap" in ev["raw"] and "None" in ev["raw"] \
